@@ -25,7 +25,7 @@ func init() {
 			"on error / unknown-dedicated results.",
 		NotCovered: "parsing of identifiers from TLS server names, URL paths, userinfo and EDNS options (string work); " +
 			"the profile database's own lookups (C14); the password-hash comparison itself.",
-		Rules: map[string]string{"C03-R22": "the identifier validators: ValidateInclusion rejects exactly the lengths outside [min, max]; NewDeviceID accepts a string only after the length check against (MaxDeviceIDLen, MinDeviceIDLen) and the host-name-label check, and returns that very string", "C03-R21": "an identifier taken from a request (EDNS option, DoH path, TLS server name) reaches its validator whole: it is not first copied into a fixed-size buffer, which would cut a longer value down to one that passes the length check and names another device", "C03-R19": "every Unpack on the receive paths is bounded by the bytes read for this message (shared with C06-R1)", "C03-R20": "backendpb.dohPasswordToInternal: AllowAuthenticator only for an absent hash; a present hash, even an empty one, becomes a bcrypt authenticator", "C03-R18": "Default.Refresh stores the backend's sync time with the file cache; a restart then fetches every deletion and detachment made since (table shared with C14-R8)", "C03-R17": "every backend update that converts reaches the profile database, so deletions and detached devices take effect (shared with C14-R16)", "C03-R16": "CreateAutoDevice asks the storage only for an existing profile with automatic devices enabled", "C03-RC": "class rules (error chains, shadowed results, character classes, crossed arguments, pool constructors, array pools, loop completeness, loop-carried buffers, replacing setters, complete clones, Grow arithmetic, pooled-buffer escape, sorted searches, fresh decode targets, per-iteration objects, whole-message copies, codec guards) over the packages this property rests on", "C03-R15": "matchDomain: lower-cased name, the library's immediate-subdomain test against every device domain, first match wins", "C03-R14": "auth settings are dropped by the file-cache codec only when absent or disabled; setProfiles stores deleted profiles over the live record (shared rules)", "C03-R13": "per-element objects built in conversion loops (server groups, devices) take no slice accumulated over earlier elements",
+		Rules: map[string]string{"C03-R23": "dnssvc.newDeviceFinder: a server of a group with profiles switched off gets the empty device finder, whatever else is configured (no device is recognised there); a group with profiles gets the default finder built with that server, the profile database and the device domains", "C03-R22": "the identifier validators: ValidateInclusion rejects exactly the lengths outside [min, max]; NewDeviceID accepts a string only after the length check against (MaxDeviceIDLen, MinDeviceIDLen) and the host-name-label check, and returns that very string", "C03-R21": "an identifier taken from a request (EDNS option, DoH path, TLS server name) reaches its validator as it was received: not cut to size by a copy into a fixed-size buffer, and not case-folded first (Unicode folding maps U+212A KELVIN SIGN onto k), either of which makes a string that is not the identifier pass as it", "C03-R19": "every Unpack on the receive paths is bounded by the bytes read for this message (shared with C06-R1)", "C03-R20": "backendpb.dohPasswordToInternal: AllowAuthenticator only for an absent hash; a present hash, even an empty one, becomes a bcrypt authenticator", "C03-R18": "Default.Refresh stores the backend's sync time with the file cache; a restart then fetches every deletion and detachment made since (table shared with C14-R8)", "C03-R17": "every backend update that converts reaches the profile database, so deletions and detached devices take effect (shared with C14-R16)", "C03-R16": "CreateAutoDevice asks the storage only for an existing profile with automatic devices enabled", "C03-RC": "class rules (error chains, shadowed results, character classes, crossed arguments, pool constructors, array pools, loop completeness, loop-carried buffers, replacing setters, complete clones, Grow arithmetic, pooled-buffer escape, sorted searches, fresh decode targets, per-iteration objects, whole-message copies, codec guards) over the packages this property rests on", "C03-R15": "matchDomain: lower-cased name, the library's immediate-subdomain test against every device domain, first match wins", "C03-R14": "auth settings are dropped by the file-cache codec only when absent or disabled; setProfiles stores deleted profiles over the live record (shared rules)", "C03-R13": "per-element objects built in conversion loops (server groups, devices) take no slice accumulated over earlier elements",
 			"C03-R1":  "decision tree of Find equals the reference (channel precedence, deleted profile, authentication table)",
 			"C03-R2":  "supportsDeviceID table",
 			"C03-R3":  "who may construct *agd.DeviceResultOK",
@@ -46,6 +46,36 @@ func init() {
 const dfPkg = "dnssvc/internal/devicefinder."
 
 func runC03(c *an.Ctx) {
+	// ---- R23: which servers recognise devices at all
+	c.Floor("C03-R23", 1)
+	decide(c, "C03-R23", "dnssvc.newDeviceFinder", an.DecideCfg{
+		Dom: an.Domain{"p1.ProfilesEnabled": an.Bools, "p0.ProfileDB": an.NilOrNot},
+		OnCall: func(it *an.Interp, name string, args []an.AV) (an.AV, bool) {
+			switch {
+			case strings.HasSuffix(name, "devicefinder.NewDefault"):
+				return an.NonNil("defaultFinder(" + args[0].String() + ")"), true
+			case strings.HasSuffix(name, "slog.Logger).With"):
+				return an.NonNil("logger"), true
+			}
+			return an.AV{}, false
+		},
+		Expect: func(f an.Features, o an.AOutcome) string {
+			if len(o.Ret) != 1 {
+				return "a device finder"
+			}
+			got := o.Ret[0].String()
+			if !f.B("p1.ProfilesEnabled") {
+				if strings.Contains(got, "EmptyDeviceFinder") {
+					return ""
+				}
+				return "the empty device finder for a group without profiles (whether or not a profile database is configured); got " + got
+			}
+			if strings.Contains(got, "defaultFinder(") {
+				return ""
+			}
+			return "the default device finder for a group with profiles; got " + got
+		},
+	})
 	// ---- R22: tables of the identifier validators
 	c.Floor("C03-R22", 2)
 	decide(c, "C03-R22", "agd.ValidateInclusion", an.DecideCfg{
@@ -1209,6 +1239,15 @@ func c03ValidatedWhole(c *an.Ctx, rule string) (sites int) {
 							}
 						}
 					}
+					// Unicode case folding maps letters outside ASCII onto ASCII ones (U+212A KELVIN SIGN -> k): folded
+					// before validation, a string that is not the identifier becomes it
+					if call, ok := v.(*ssa.Call); ok {
+						switch an.CalleeName(call) {
+						case "strings.ToLower", "strings.ToUpper", "strings.ToTitle", "strings.ToValidUTF8":
+							bad = "the result of " + an.CalleeName(call) + " at " + c.Pos(call.Pos()) + " (case folding before validation)"
+							return true
+						}
+					}
 					return false
 				},
 				Leaf: func(ssa.Value, string) {},
@@ -1218,8 +1257,8 @@ func c03ValidatedWhole(c *an.Ctx, rule string) (sites int) {
 			}
 			w.Walk(call.Common().Args[0])
 			c.Check(bad == "", rule, fmt.Sprintf("%s: %s call %d validates the whole identifier", k, an.Short(name), perCallee[name]), call.Pos(),
-				"the argument does not come out of a fixed-size buffer",
-				"the argument comes from "+bad+": a copy into it cuts a longer identifier down to one that passes the length check, and the request is attributed to the device whose ID is its prefix")
+				"the argument is the identifier as it was received",
+				"the argument comes from "+bad+": the validator sees another string than the request carried (cut to size, or folded onto ASCII), and a request that does not carry a device's identifier is attributed to that device")
 		}
 	}
 	return sites
